@@ -3,7 +3,10 @@
   reformat  -- every file replaced by ast.unparse(ast.parse(src)) (comments, layout, quoting, number spelling gone)
   rename    -- every renamable function local x renamed to x_r (about 1300 names)
   logging   -- a `logging.debug("enter")` statement inserted at the top of every function (about 950)
-usage: selftest/benign.py [reformat|rename|logging|all]   -> exit 0 if all 20 quick checks exit 0 on each rewritten tree"""
+  docstring -- a docstring added to every function and class that has none
+  annotate  -- `: object` added to every un-annotated parameter and `-> object` to every function without a return annotation
+  addcode   -- an unused function appended to every module and an unused method to every class
+usage: selftest/benign.py [reformat|rename|logging|docstring|annotate|addcode|all]   -> exit 0 if all 20 quick checks exit 0 on each rewritten tree"""
 import ast, os, shutil, subprocess, sys, tempfile
 HERE = os.path.dirname(os.path.dirname(os.path.abspath(__file__)))
 sys.path.insert(0, HERE)
@@ -31,6 +34,28 @@ def rewrite(root, how):
                         j += 1
                     t.body.insert(j, ast.parse("import logging").body[0])
                     ast.fix_missing_locations(t)
+                if how == "docstring":
+                    for d in [x for x in ast.walk(t) if isinstance(x, (ast.FunctionDef, ast.AsyncFunctionDef, ast.ClassDef))]:
+                        if not (d.body and isinstance(d.body[0], ast.Expr) and isinstance(d.body[0].value, ast.Constant) and isinstance(d.body[0].value.value, str)):
+                            d.body.insert(0, ast.Expr(value=ast.Constant(value="documentation added by the benign control")))
+                            n += 1
+                    ast.fix_missing_locations(t)
+                if how == "annotate":
+                    for fn in [x for x in ast.walk(t) if isinstance(x, (ast.FunctionDef, ast.AsyncFunctionDef))]:
+                        for a in fn.args.posonlyargs + fn.args.args + fn.args.kwonlyargs:
+                            if a.annotation is None and a.arg not in ("self", "cls"):
+                                a.annotation = ast.Name(id="object", ctx=ast.Load())
+                                n += 1
+                        if fn.returns is None and fn.name != "__init__":
+                            fn.returns = ast.Name(id="object", ctx=ast.Load())
+                    ast.fix_missing_locations(t)
+                if how == "addcode":
+                    for c in [x for x in ast.walk(t) if isinstance(x, ast.ClassDef)]:
+                        if not any(isinstance(b, ast.Name) and b.id in ("Enum", "NamedTuple", "TypedDict", "Protocol") for b in c.bases):
+                            c.body.append(ast.parse("def _pv_unused_method(self):\n    return None").body[0])
+                            n += 1
+                    t.body.append(ast.parse("def _pv_unused_function(value=None):\n    return value").body[0])
+                    ast.fix_missing_locations(t)
                 if how == "rename":
                     for key, fn in alpha.function_index(t):
                         names = alpha.local_order(fn)
@@ -47,7 +72,7 @@ def rewrite(root, how):
 def main(argv):
     which = argv[0] if argv else "all"
     worst = 0
-    for how in (["reformat", "rename", "logging"] if which == "all" else [which]):
+    for how in (["reformat", "rename", "logging", "docstring", "annotate", "addcode"] if which == "all" else [which]):
         tmp = tempfile.mkdtemp(prefix="pv-benign-")
         try:
             for pkg in ("passlib", "libpass"):
